@@ -2,11 +2,10 @@ SPECIFICATION Spec
 CONSTANTS Coef <- C3
  Bnd <- B3
  MaxD = 2
- MaxSteps = 2
+ MaxSteps = 3
  SubA <- A2
  SubB <- S2
 INVARIANT SameValueInv
-INVARIANT ExaminableInv
 INVARIANT TwoEvaluators
 INVARIANT SimplifyIdempotent
 POSTCONDITION Emit
